@@ -352,7 +352,7 @@ pub fn run(ctx: &mut Ctx) {
     });
     let cases = ctx.tier.pick(700_000u64, 5_000_000u64);
     ctx.pbt("c04-random", cases, 3000, |t, st| {
-        let bytes = if t.chance(35) { gen_accepted(t, Avoid::NONE, 8).text().into_bytes() } else { gen_input(t).bytes };
+        let bytes = gen_bytes(t);
         let m1: Beatmap = match rosu_map::from_bytes(&bytes) {
             Ok(m) => m,
             Err(e) => return Err(Fail::new(format!("decode error {e}"), "osu", bytes)),
@@ -364,18 +364,83 @@ pub fn run(ctx: &mut Ctx) {
         let r = check_map_k(&m1, k1, k3, k10);
         record(r, &bytes, &m1, st)
     });
+    // the encoded text is the same through encode / encode_to_string / encode_to_path (fresh and existing targets)
+    let files2 = crate::gen::corpus::bundled();
+    let cases = ctx.tier.pick(400u64, 4_000u64);
+    ctx.pbt("c04-entry-points", cases, 3000, |t, st| {
+        let bytes = if t.chance(20) { files2[t.below(files2.len())].bytes.clone() } else { gen_accepted(t, Avoid::NONE, 8).text().into_bytes() };
+        let m1: Beatmap = match rosu_map::from_bytes(&bytes) {
+            Ok(m) => m,
+            Err(e) => return Err(Fail::new(format!("decode error {e}"), "osu", bytes)),
+        };
+        if crate::props::c01::predicted_events(&m1) > 2.0e6 {
+            st.exclude("heavy");
+            return Ok(());
+        }
+        st.eval();
+        st.label("encode entry points compared");
+        st.nontrivial(hash64(&bytes));
+        check_entry_points(&m1, 0).map_err(|m| Fail::new(m, "osu", bytes.clone()))
+    });
+    let _ = std::fs::remove_dir_all(crate::engine::verif_dir().join("harness/target/tmp").join(format!("c04-{}", std::process::id())));
+}
+
+/// the three public encode entry points write the same text; encode_to_path also when the target file
+/// already exists (longer or shorter than the new text)
+fn check_entry_points(m1: &Beatmap, k: usize) -> Result<(), String> {
+    let text = m1.clone().encode_to_string().map_err(|e| format!("encode_to_string error {e}"))?;
+    let mut buf = Vec::new();
+    m1.clone().encode(&mut buf).map_err(|e| format!("encode error {e}"))?;
+    if buf != text.as_bytes() {
+        return Err("encode() and encode_to_string() write different text".into());
+    }
+    let dir = crate::engine::verif_dir().join("harness/target/tmp").join(format!("c04-{}", std::process::id()));
+    std::fs::create_dir_all(&dir).map_err(|e| format!("tmp dir: {e}"))?;
+    let p = dir.join(format!("{:?}-{k}.osu", std::thread::current().id()).replace(['(', ')'], ""));
+    for (what, old) in [("a fresh path", None), ("an existing longer file", Some(text.len() + 1 + text.len() / 3)), ("an existing shorter file", Some(text.len() / 2))] {
+        let _ = std::fs::remove_file(&p);
+        if let Some(n) = old {
+            let junk: Vec<u8> = b"[HitObjects]\n1,2,3,1,0\nold content ".iter().copied().cycle().take(n).collect();
+            std::fs::write(&p, junk).map_err(|e| format!("tmp write: {e}"))?;
+        }
+        m1.clone().encode_to_path(&p).map_err(|e| format!("encode_to_path error {e}"))?;
+        let got = std::fs::read(&p).map_err(|e| format!("tmp read: {e}"))?;
+        if got != text.as_bytes() {
+            let _ = std::fs::remove_file(&p);
+            return Err(format!("encode_to_path onto {what} leaves {} bytes in the file, encode_to_string gives {} (the file must hold exactly the encoded text)", got.len(), text.len()));
+        }
+    }
+    let _ = std::fs::remove_file(&p);
+    Ok(())
+}
+
+/// inputs: accepted documents, the C01 families, and (about 0.5 %) the scale / geometry documents
+fn gen_bytes(t: &mut Tape) -> Vec<u8> {
+    if t.chance(1) && t.chance(50) {
+        return crate::gen::doc::gen_scale_doc(t).0.into_bytes();
+    }
+    if t.chance(35) {
+        gen_accepted(t, Avoid::NONE, 8).text().into_bytes()
+    } else {
+        gen_input(t).bytes
+    }
 }
 
 pub fn replay(ctx: &mut Ctx, ext: &str, bytes: &[u8]) -> Result<Option<String>, Fail> {
     let b = if ext == "tape" {
         let mut t = Tape::new(bytes);
-        if t.chance(35) { gen_accepted(&mut t, Avoid::NONE, 8).text().into_bytes() } else { gen_input(&mut t).bytes }
+        gen_bytes(&mut t)
     } else {
         bytes.to_vec()
     };
     let m1: Beatmap = rosu_map::from_bytes(&b).map_err(|e| Fail::new(format!("decode error {e}"), "osu", b.clone()))?;
     match check_map_k(&m1, ctx.open(K1), ctx.open(K3), ctx.open(K10)) {
-        Ok(o) => Ok(o.known.first().map(|k| k.to_string())),
+        Ok(o) => {
+            if ext != "tape" && crate::props::c01::predicted_events(&m1) <= 2.0e6 {
+                check_entry_points(&m1, 1).map_err(|m| Fail::new(m, "osu", b.clone()))?;
+            }
+            Ok(o.known.first().map(|k| k.to_string()))
+        }
         Err(m) => Err(Fail::new(m, "osu", b)),
     }
 }
